@@ -22,7 +22,8 @@ enum Ev : int { CALL_FF, RET_FF, CALL_SD, RET_SD, EXP_ENTER, EXP_EXIT, XFF_ENTER
 const char *const kEvName[] = {"call-flush", "ret-flush", "call-shutdown", "ret-shutdown", "export-enter", "export-exit", "exp-flush-enter", "exp-flush-exit", "exp-shutdown-enter",
                                "exp-shutdown-exit", "added"};
 struct Event { int kind, thread, a, b; int64_t vt; };
-struct Cfg { int readers, F, S, destroy, xlat /* bit r: Export of reader r takes 300 ms */, fft /* 0: 60 s, 1: 100 ms */; };
+struct Cfg { int readers, F, S, destroy, xlat /* bit r: Export of reader r takes 300 ms */, fft /* 0: 60 s, 1: 100 ms */,
+             xfail /* bit r: the exporter of reader r reports failure from Export, ForceFlush and Shutdown */; };
 std::vector<Cfg> g_cfgs;
 
 struct Shared {
@@ -64,11 +65,11 @@ class Exporter final : public sdkm::PushMetricExporter {
     if (g->cfg->xlat & (1 << id_)) std::this_thread::sleep_for(milliseconds(300));
     else g->tick.fetch_add(1);
     g->log(EXP_EXIT, id_);
-    return sdkc::ExportResult::kSuccess;
+    return (g->cfg->xfail & (1 << id_)) ? sdkc::ExportResult::kFailure : sdkc::ExportResult::kSuccess;
   }
   sdkm::AggregationTemporality GetAggregationTemporality(sdkm::InstrumentType) const noexcept override { return sdkm::AggregationTemporality::kCumulative; }
-  bool ForceFlush(microseconds) noexcept override { g->log(XFF_ENTER, id_); g->log(XFF_EXIT, id_); return true; }
-  bool Shutdown(microseconds) noexcept override { g->xsd_calls[id_]++; g->log(XSD_ENTER, id_); g->log(XSD_EXIT, id_); return true; }
+  bool ForceFlush(microseconds) noexcept override { g->log(XFF_ENTER, id_); g->log(XFF_EXIT, id_); return !(g->cfg->xfail & (1 << id_)); }
+  bool Shutdown(microseconds) noexcept override { g->xsd_calls[id_]++; g->log(XSD_ENTER, id_); g->log(XSD_EXIT, id_); return !(g->cfg->xfail & (1 << id_)); }
 };
 
 void setup(vf::Options &o) {
@@ -86,6 +87,8 @@ void setup(vf::Options &o) {
   g_cfgs.push_back({1, 1, 0, 0, 0, 0});   // flush through the provider, then shutdown
   g_cfgs.push_back({1, 0, 0, 1, 0, 0});   // destruction instead of Shutdown
   g_cfgs.push_back({2, 1, 0, 0, 1, 1});   // two readers, a 100 ms budget, the FIRST reader's exporter is slow: the answer must be false
+  g_cfgs.push_back({2, 0, 0, 0, 0, 0, 1});   // the FIRST reader's exporter reports failure: the second reader is shut down all the same
+  g_cfgs.push_back({2, 1, 0, 0, 0, 0, 1});   // ... and flushed all the same (the provider's answer is then unconstrained)
   if (th) {
     g_cfgs.push_back({1, 1, 1, 0, 0, 0});   // flush racing shutdown
     g_cfgs.push_back({2, 1, 0, 0, 0, 0});   // two readers
